@@ -94,6 +94,9 @@ def generate(rng, tier="quick"):
         if k == "validator_for":
             op["spelling"] = rng.choice(["known", "known", "known", "unknown", "future", "missing", "bool"])
             op["default"] = rng.choice([None, None, "draft3", "draft4", "new"])
+            # the schema as another kind of mapping: dict subclasses whose missing keys materialise on a read
+            op["wrap"] = rng.choice([None, None, None, None, "defaultdict_str", "defaultdict_tree", "defaultdict_list",
+                                     "ordered"])
         if k in ("validate", "cli", "validate_cls", "suspend"):
             op["spelling"] = rng.choice(["known", "known", "known", "unknown", "future", "missing"])
             op["extra"] = rng.choice([None, None, "format_checker", "bool_schema"])
@@ -170,7 +173,8 @@ def execute(scn):
         out = []
         for e in errs:
             out.append(jdump(dict(e, context=[])))
-            out.extend(flat(e["context"]))
+            if not (e["context"] and isinstance(e["context"][0], str)):      # (not a "big-context" digest)
+                out.extend(flat(e["context"]))
         return out
 
     def spelled(op, step):
@@ -375,7 +379,30 @@ def execute(scn):
                     import types as _types
                     schema = _types.MappingProxyType(schema)     # "collections.abc.Mapping or bool", says the docstring
                     probe("validator_for_on_non_dict_mapping")
-                got, warned = observed_select(schema, default)
+                elif op.get("wrap") and isinstance(schema, dict):
+                    import collections
+
+                    def _tree():
+                        return collections.defaultdict(_tree)
+                    plain = schema
+                    schema = {"defaultdict_str": collections.defaultdict(str), "defaultdict_tree": _tree(),
+                              "defaultdict_list": collections.defaultdict(list),
+                              "ordered": collections.OrderedDict()}[op["wrap"]]
+                    schema.update(plain)
+                    probe("validator_for_on_dict_subclass")
+                before = dict(schema) if not isinstance(schema, bool) else schema
+                try:
+                    got, warned = observed_select(schema, default)
+                except Exception as x:
+                    violations.append({"oracle": "validator_for-raised", "where": step, "op": k,
+                                       "detail": {"mapping_type": type(schema).__name__, "exc": type(x).__name__,
+                                                  "msg": str(x)[:200]}})
+                    got, warned = want, (1 if want_warn else 0)
+                if not isinstance(schema, bool) and dict(schema) != before:
+                    violations.append({"oracle": "validator_for-modified-the-schema", "where": step, "op": k,
+                                       "detail": {"mapping_type": type(schema).__name__, "before": sorted(before),
+                                                  "after": sorted(dict(schema))}})
+                    got, warned = want, (1 if want_warn else 0)
                 note_dispatch(u, step)
                 if want_warn:
                     probe("unknown_uri_warned")
